@@ -389,6 +389,12 @@ pub(crate) struct LogReader {
     fragments of a record that was never finished.
     */
     has_skipped_data: bool,
+
+    /**
+    True if a fragment failed its integrity checks or did not fit the fragment sequence (as
+    opposed to a record that is merely cut short by the end of the file).
+    */
+    has_corrupted_data: bool,
 }
 
 /// Public methods
@@ -415,6 +421,7 @@ impl LogReader {
             current_cursor_position: initial_block_offset,
             current_block_offset: 0,
             has_skipped_data: false,
+            has_corrupted_data: false,
         };
 
         Ok(reader)
@@ -462,6 +469,7 @@ impl LogReader {
                 // A corrupted fragment invalidates the record it belongs to. Drop what has been
                 // collected so far and resynchronize on the start of the next record.
                 self.has_skipped_data = true;
+                self.has_corrupted_data = true;
                 in_fragmented_record = false;
                 data_buffer.clear();
             } else {
@@ -473,6 +481,7 @@ impl LogReader {
                         // (e.g. the writer died before writing the last fragment).
                         if in_fragmented_record {
                             self.has_skipped_data = true;
+                            self.has_corrupted_data = true;
                         }
                         return Ok((record.data, false));
                     }
@@ -480,6 +489,7 @@ impl LogReader {
                         // Same as above, an unfinished record is dropped
                         if in_fragmented_record {
                             self.has_skipped_data = true;
+                            self.has_corrupted_data = true;
                         }
                         data_buffer = record.data;
                         in_fragmented_record = true;
@@ -490,6 +500,7 @@ impl LogReader {
                             data_buffer.extend(record.data);
                         } else {
                             self.has_skipped_data = true;
+                            self.has_corrupted_data = true;
                         }
                     }
                     BlockType::Last => {
@@ -499,6 +510,7 @@ impl LogReader {
                             return Ok((data_buffer, false));
                         }
                         self.has_skipped_data = true;
+                        self.has_corrupted_data = true;
                     }
                 }
             }
@@ -517,6 +529,18 @@ impl LogReader {
     */
     pub(crate) fn was_read_cleanly_to_end(&self) -> LogIOResult<bool> {
         Ok(!self.has_skipped_data && (self.current_cursor_position as u64) == self.len()?)
+    }
+}
+
+/// Crate-only methods
+impl LogReader {
+    /**
+    Returns true if the reader had to drop data that was present in the file but damaged: a
+    fragment with a bad checksum or type, or fragments that do not form a record. A record that is
+    cut short by the end of the file (a torn final write) does not count.
+    */
+    pub(crate) fn encountered_corruption(&self) -> bool {
+        self.has_corrupted_data
     }
 }
 
